@@ -68,6 +68,10 @@ def decl(rng, flag, base, idx, legacy=False):
         text = f"{kw} {name} {{ {body} }};"
     else:
         text = f"{kw} {name} : {base} {{ {body} }};"
+    if not legacy and rng.random() < 0.3:
+        # a constant that happens to have the name of a member: inside the declaration the member is meant
+        shadowed = rng.choice(members)
+        text = f"#define {shadowed[0]} {shadowed[1] + rng.choice([1, 7, 64])}\n" + text
     return text, name, members
 
 
